@@ -183,6 +183,7 @@ class CoopLock:
             raise HarnessError('scheduler resumed a blocked thread')
         self.owner = tid
         self.used = True
+        self.s.after_release[tid] = False
         self.s.did(tid, 'acq')
         return True
 
@@ -273,11 +274,39 @@ class ScriptedSocket:
         self.pending = []   # (serial, datagram, kind)
         self.nrx = 0
         self.reqidx = {}    # tid -> index of the request the thread is working on
+        self.setup = None   # during session establishment: {'auth': .., 'sid': .., 'cmds': [...]}
 
     def settimeout(self, t):
         pass
 
+    def close(self):
+        pass
+
+    def _setup_answer(self, b):
+        """the BMC during establish_session (single-threaded, before the schedule starts):
+        pong, Get Channel Authentication Capabilities, Get Session Challenge, Activate Session,
+        Set Session Privilege Level - not part of the observed history"""
+        st = self.setup
+        if b[:4] == bytes([6, 0, 0xff, 6]):
+            st['cmds'].append('ping')
+            return (bytes([6, 0, 0xff, 6]) + (4542).to_bytes(4, 'big') + bytes([0x40, b[9] if len(b) > 9 else 0, 0, 16])
+                    + (4542).to_bytes(4, 'big') + bytes(4) + bytes([0x81, 0]) + bytes(6))
+        p = parse_tx(b)
+        st['cmds'].append(p['cmd'])
+        support = {0: 0x01, 2: 0x04, 4: 0x10}[st['auth']]
+        sid = st['sid']
+        data = {0x38: [0, 0x0e, support, 0, 1, 0, 0, 0, 0],
+                0x39: [0] + list(sid.to_bytes(4, 'little')) + list(range(16)),
+                0x3a: [0, st['auth']] + list(sid.to_bytes(4, 'little')) + list((0x1000).to_bytes(4, 'little')) + [4],
+                0x3b: [0, 4]}.get(p['cmd'])
+        if data is None:
+            raise HarnessError('unexpected command 0x%02x during session establishment' % p['cmd'])
+        return ipmb_response(p, data)
+
     def sendto(self, pdu, addr):
+        if self.setup is not None:
+            self.pending.append((0, self._setup_answer(bytes(pdu)), 'setup'))
+            return len(pdu)
         tid = self.s.park('snd')
         b = bytes(pdu)
         serial = self.nrx
@@ -309,6 +338,10 @@ class ScriptedSocket:
         return len(pdu)
 
     def recvfrom(self, n):
+        if self.setup is not None:
+            if not self.pending:
+                raise socket.timeout('timed out')
+            return (self.pending.pop(0)[1], ('bmc', 623))
         tid = self.s.park('rcv')
         if not self.pending:
             self.s.did(tid, 'tmo')
@@ -326,14 +359,20 @@ class ScriptedSocket:
 
 
 class ShimEvent:
-    def __init__(self, n, log):
-        self.n, self.log, self.flag = n, log, False
+    """the Event call_repeatedly waits on: wait() never waits; it returns False n times (= n
+    keep-alive iterations), then True; records the interval it was asked to wait"""
+
+    def __init__(self, n, log, on_wait=None):
+        self.n, self.log, self.flag, self.calls, self.on_wait = n, log, False, 0, on_wait
 
     def wait(self, interval=None):
         self.log.append(interval)
+        if self.on_wait:
+            self.on_wait(self.calls)      # number of job calls completed so far
         if self.flag or self.n <= 0:
             return True
         self.n -= 1
+        self.calls += 1
         return False
 
     def set(self):
@@ -345,36 +384,33 @@ class ShimEvent:
 
 class ShimThread:
     def __init__(self, cap, target=None, args=(), kwargs=None, **kw):
-        cap.append(target)
+        cap.append((target, tuple(args or ())))
         self.daemon = False
 
     def start(self):
         pass
 
+    def join(self, timeout=None):
+        pass
 
-class LockShim:
+
+class ThreadingShim:
     """stands in for the module global `threading` of rmcp.py during a scheduled run:
-    EVERY lock the code creates (in __init__ or later, one or many) is a cooperative lock
-    of this run's scheduler; everything else is the real module"""
+      * EVERY lock the code creates (in the constructor or later, one or many) is a cooperative
+        lock of this run's scheduler;
+      * the timer thread call_repeatedly wants to start is captured instead of started, the Event
+        it waits on never waits;
+    everything else is the real module"""
 
-    def __init__(self, real, s):
-        self._real, self._s = real, s
+    def __init__(self, real, s, n, captured, waits):
+        self._real, self._s, self._n, self._cap, self._waits = real, s, n, captured, waits
+        self.on_wait = None
 
     def Lock(self):
         return CoopLock(self._s)
 
-    def __getattr__(self, k):
-        return getattr(self._real, k)
-
-
-class ShimThreading:
-    """stands in for the module global `threading` of rmcp.py while call_repeatedly runs"""
-
-    def __init__(self, real, n, captured, waits):
-        self._real, self._n, self._cap, self._waits = real, n, captured, waits
-
     def Event(self):
-        return ShimEvent(self._n, self._waits)
+        return ShimEvent(self._n, self._waits, lambda k: self.on_wait and self.on_wait(k))
 
     def Thread(self, *a, **kw):
         return ShimThread(self._cap, *a, **kw)
@@ -383,45 +419,22 @@ class ShimThreading:
         return getattr(self._real, k)
 
 
-_JOB = {}
+class SocketShim:
+    """stands in for the module global `socket` of rmcp.py: socket.socket(...) is the scripted
+    socket; everything else (socket.timeout, constants) is the real module"""
+
+    def __init__(self, real, sock):
+        self._real, self._sock = real, sock
+
+    def socket(self, *a, **kw):
+        return self._sock
+
+    def __getattr__(self, k):
+        return getattr(self._real, k)
 
 
-def captured_job():
-    """what the REAL establish_session of the code under test hands to call_repeatedly
-    (captured once per process by keepalive_tie): {'func', 'args', 'owner'} or None"""
-    if 'job' not in _JOB:
-        try:
-            keepalive_tie()
-        except Exception:  # noqa
-            _JOB.setdefault('job', None)
-    return _JOB.get('job')
-
-
-def bind_job(rmcp):
-    """the captured keep-alive job, re-bound to the interface object of this run;
-    falls back to the modelled job (_get_device_id) when nothing could be captured"""
-    job = captured_job()
-    if not job or not callable(job['func']):
-        return rmcp._get_device_id, ()
-    f, owner = job['func'], job['owner']
-    if getattr(f, '__self__', None) is owner and hasattr(f, '__func__'):
-        f = f.__func__.__get__(rmcp, type(rmcp))
-    args = tuple(rmcp if a is owner else a for a in (job['args'] or ()))
-    return f, args
-
-
-def keepalive_loop(R, rmcp, n, func, args=()):
-    """the real closure `loop` of call_repeatedly around the keep-alive job"""
-    cap, waits = [], []
-    real = R.threading
-    R.threading = ShimThreading(real, n, cap, waits)
-    try:
-        R.call_repeatedly(rmcp.keep_alive_interval, func, *args)
-    finally:
-        R.threading = real
-    if len(cap) != 1 or not callable(cap[0]):
-        raise HarnessError('call_repeatedly did not create exactly one thread')
-    return cap[0], waits
+KA_INTERVAL = 3
+SID = 0x11223344
 
 
 def run_schedule(cfg, choices, fine=False, budget=None):
@@ -437,18 +450,22 @@ def run_schedule(cfg, choices, fine=False, budget=None):
     from pyipmi.msgs import create_request_by_name
     import pyipmi.session as SESS
 
-    captured_job()      # in the main thread, before any scheduled thread exists
     s = Sched(choices, budget or (40000 if fine else 4000))
-    real_threading = R.threading
-    R.threading = LockShim(real_threading, s)
+    sock = ScriptedSocket(s, cfg.get('stale', ()), cfg.get('lose', ()))
+    kthreads = [t for t in cfg['threads'] if t['kind'] == 'keepalive']
+    cap, waits = [], []
+    real_threading, real_socket = R.threading, R.socket
+    shim = ThreadingShim(real_threading, s, len(kthreads[0]['reqs']) if kthreads else 0, cap, waits)
+    R.threading = shim
+    R.socket = SocketShim(real_socket, sock)
     try:
-        return _run(cfg, fine, s, R, SESS, Session, Target, create_request_by_name)
+        return _run(cfg, fine, s, sock, shim, cap, waits, R, SESS, Session, Target, create_request_by_name)
     finally:
         R.threading = real_threading
+        R.socket = real_socket
 
 
-def _run(cfg, fine, s, R, SESS, Session, Target, create_request_by_name):
-
+def _run(cfg, fine, s, sock, shim, cap, waits, R, SESS, Session, Target, create_request_by_name):
     class SRmcp(R.Rmcp):
         def _g(self):
             tid = s.park('rd')
@@ -492,22 +509,38 @@ def _run(cfg, fine, s, R, SESS, Session, Target, create_request_by_name):
             self.__dict__['_c14_sq'] = v
         sequence_number = property(_g, _s)
 
-    intf = SRmcp(keep_alive_interval=1, max_retries=cfg.get('max_retries', 0))
-    intf.host, intf.port = 'bmc', 623
-    sock = ScriptedSocket(s, cfg.get('stale', ()), cfg.get('lose', ()))
-    intf._sock = sock
-    if not isinstance(getattr(intf, 'transaction_lock', None), CoopLock):
-        intf.transaction_lock = CoopLock(s)      # (the constructor did not go through threading.Lock)
-    intf.next_sequence_number = cfg['nsn0']
+    # --- set-up through the PUBLIC path only: constructor, open(), establish_session(session);
+    # the socket, the locks and the keep-alive timer are substituted from outside (module globals
+    # `socket` / `threading` of rmcp.py); no private attribute of the library is named
+    intf = SRmcp(keep_alive_interval=KA_INTERVAL, max_retries=cfg.get('max_retries', 0))
+    intf.open()
     sess = SSession()
-    sess.sid = 0x11223344
-    sess.sequence_number = cfg['s0']
-    sess.activated = cfg.get('active', True)
+    sess.set_session_type_rmcp('bmc', 623)
     auth = cfg.get('auth', 0)
     if auth:
         sess.set_auth_type_user('admin', PASSWORD)
-        sess.auth_type = auth
-    intf._session = sess
+    sock.setup = {'auth': auth, 'sid': SID, 'cmds': []}
+    intf.establish_session(sess)        # single-threaded, unscheduled; starts "the keep-alive"
+    setup_cmds = sock.setup['cmds']
+    if sock.pending:
+        raise HarnessError('session establishment left datagrams unread')
+    sock.setup = None
+    # a lock that was not created through `threading.Lock()` (found by type, not by name)
+    real_lock_type = type(shim._real.Lock())
+    for k, v in list(vars(intf).items()):
+        if isinstance(v, real_lock_type):
+            setattr(intf, k, CoopLock(s))
+    sess.activated = cfg.get('active', True)
+    sess.sequence_number = cfg['s0']            # public attributes: the state the history starts from
+    intf.next_sequence_number = cfg['nsn0']
+    # what establish_session handed to call_repeatedly: the real `loop` closure around the real job
+    ka_loop = cap[0][0] if len(cap) == 1 and callable(cap[0][0]) else None
+    ka_name = '?'
+    try:
+        fv = dict(zip(ka_loop.__code__.co_freevars, [c.cell_contents for c in (ka_loop.__closure__ or ())]))
+        ka_name = getattr(fv.get('func'), '__name__', '?')
+    except Exception:  # noqa  (informational only)
+        pass
 
     results = {}
     orig_sar = intf.send_and_receive
@@ -520,26 +553,19 @@ def _run(cfg, fine, s, R, SESS, Session, Target, create_request_by_name):
     intf.send_and_receive = rec_sar
 
     pyipmi_dir = R.__file__.rsplit('/interfaces/', 1)[0]
-    traced = (R.__file__, SESS.__file__)
-
-    SAR = '_send_and_receive'
+    traced = (R.__file__, SESS.__file__) if fine else (R.__file__,)
 
     def tracer(frame, event, arg):
-        code = frame.f_code
-        if code.co_filename == R.__file__ and code.co_name == SAR:
-            tid = s.ident.get(threading.get_ident())
-            s.after_release[tid] = False
-            return local
-        if fine and code.co_filename in traced:
+        if frame.f_code.co_filename in traced:
             return local
         return None
 
     def local(frame, event, arg):
         if event == 'line':
-            code = frame.f_code
             tid = s.ident.get(threading.get_ident())
-            if code.co_name == SAR and code.co_filename == R.__file__ and s.after_release.get(tid):
-                # the first line of _send_and_receive executed after the lock was released
+            if frame.f_code.co_filename == R.__file__ and s.after_release.get(tid):
+                # the first source line of the interface module this thread executes after it
+                # released a lock: the window between the release and the return
                 s.after_release[tid] = False
                 s.park('ret')
                 s.did(tid, 'ret')
@@ -559,17 +585,20 @@ def _run(cfg, fine, s, R, SESS, Session, Target, create_request_by_name):
             sys.settrace(tracer)
             try:
                 if kind == 'keepalive':
-                    job, jargs = bind_job(intf)
-
-                    def counted(*a):
-                        before = len(out)
-                        r = job(*a)
-                        if len(out) == before:      # a job that does not go through send_and_receive
+                    def on_wait(k):     # a job that records no outcome (does not use send_and_receive)
+                        while len(out) < k:
                             out.append(['done', ''])
-                        return r
-                    loop, waits = keepalive_loop(R, intf, len(reqs), counted, jargs)
+                    shim.on_wait = on_wait
                     try:
-                        loop()
+                        if ka_loop is not None:
+                            ka_loop()
+                        else:
+                            # nothing was handed to call_repeatedly (reported as a finding by the
+                            # check): run the modelled keep-alive through the public path
+                            for _ in reqs:
+                                req = create_request_by_name('GetDeviceId')
+                                req.target = Target(0x20)
+                                intf.send_and_receive(req)
                     except Abort:
                         raise
                     except BaseException as e:   # the real keep-alive thread would die here
@@ -638,79 +667,10 @@ def _run(cfg, fine, s, R, SESS, Session, Target, create_request_by_name):
         'locks_used': sum(1 for l in s.locks if getattr(l, 'used', False)),
         'unlocked_session_accesses': len(unlocked),
         'unread': [[x[0], x[2]] for x in sock.pending],
-        'keepalive_job': getattr(bind_job(intf)[0], '__name__', '?'),
+        'keepalive_job': ka_name,
+        'keepalive': {'captured': ka_loop is not None, 'threads_created': len(cap),
+                      'intervals': sorted(set(waits), key=repr), 'expected_interval': KA_INTERVAL,
+                      'args': [list(map(repr, c[1])) for c in cap], 'setup_exchanges': setup_cmds},
         'final_nsn': intf.__dict__.get('_c14_nsn'),
         'final_sseq': sess.__dict__.get('_c14_sq'),
     }
-
-
-def keepalive_tie(interval=7):
-    """Tie for "the keep-alive is one more thread issuing Get Device ID through the same
-    interface": run the REAL establish_session (single-threaded) against a scripted BMC
-    with the module global `threading` of rmcp.py shimmed, and look at what it hands to
-    call_repeatedly.  -> (ok, details)"""
-    from pyipmi.session import Session
-    from pyipmi.interfaces import rmcp as R
-
-    inbound = 0x01020304
-    sid = 0x55667788
-
-    class Sock:
-        def __init__(self):
-            self.pending, self.cmds = [], []
-
-        def settimeout(self, t):
-            pass
-
-        def sendto(self, pdu, addr):
-            b = bytes(pdu)
-            if b[3] == 6:      # ASF ping -> pong
-                self.cmds.append('ping')
-                self.pending.append(bytes([6, 0, 0xff, 6]) + (4542).to_bytes(4, 'big') + bytes([0x40, b[9], 0, 16])
-                                    + (4542).to_bytes(4, 'big') + bytes(4) + bytes([0x81, 0]) + bytes(6))
-                return
-            p = parse_tx(b)
-            self.cmds.append(p['cmd'])
-            data = {0x38: [0, 0x0e, 0x10, 0, 1, 0, 0, 0, 0],
-                    0x39: [0] + list(sid.to_bytes(4, 'little')) + list(range(16)),
-                    0x3a: [0, 4] + list(sid.to_bytes(4, 'little')) + list(inbound.to_bytes(4, 'little')) + [4],
-                    0x3b: [0, 4]}[p['cmd']]
-            h = [p['rq_sa'], ((p['netfn'] | 1) << 2) | p['rq_lun']]
-            h.append(csum(h))
-            r = [p['rs_sa'], (p['seq'] << 2) | p['rs_lun'], p['cmd']] + data
-            r.append(csum(r))
-            msg = bytes(h + r)
-            self.pending.append(bytes([6, 0, 0xff, 7, 0]) + bytes(8) + bytes([len(msg)]) + msg)
-
-        def recvfrom(self, n):
-            if not self.pending:
-                raise socket.timeout('timed out')
-            return (self.pending.pop(0), ('bmc', 623))
-
-    intf = R.Rmcp(keep_alive_interval=interval)
-    intf._sock = Sock()
-    sess = Session()
-    sess.set_session_type_rmcp('bmc', 623)
-    sess.set_auth_type_user('admin', 'secret')
-    cap, waits = [], []
-    real = R.threading
-    R.threading = ShimThreading(real, 0, cap, waits)
-    try:
-        intf.establish_session(sess)
-    finally:
-        R.threading = real
-    d = {'threads_created': len(cap), 'exchanges': intf._sock.cmds}
-    _JOB['job'] = None
-    if len(cap) != 1 or not callable(cap[0]):
-        return False, d
-    loop = cap[0]
-    fv = dict(zip(loop.__code__.co_freevars, [c.cell_contents for c in (loop.__closure__ or ())]))
-    func = fv.get('func')
-    _JOB['job'] = {'func': func, 'args': fv.get('args') or (), 'owner': intf}
-    d.update({'interval': fv.get('interval'), 'func': getattr(func, '__name__', repr(func)), 'args': repr(fv.get('args')),
-              'activated': sess.activated, 'sequence_number': sess.sequence_number})
-    ok = (func == intf._get_device_id and fv.get('interval') == interval and fv.get('args') == ()
-          and sess.activated is True and intf._session is sess and sess.sequence_number == inbound + 1
-          and isinstance(intf.transaction_lock, type(real.Lock())))
-    # sequence_number == inbound + 1: Set Session Privilege Level was sent after activation
-    return ok, d
